@@ -212,14 +212,14 @@ func (c *vc42Conn) line() string {
 // ---------------------------------------------------------------- vote construction
 
 type vc42Vote struct {
-	pf                    []byte
-	per, step, rnd, oper  []byte // msgpack uint encodings (nil = field absent)
-	dig, encdig, oprop    []byte // nil = absent
-	snd                   []byte
-	p, p1s, p2, p2s, s    []byte
-	rOrder                []string // keys of r, in emission order
-	propOrder             []string
-	ps                    []byte
+	pf                   []byte
+	per, step, rnd, oper []byte // msgpack uint encodings (nil = field absent)
+	dig, encdig, oprop   []byte // nil = absent
+	snd                  []byte
+	p, p1s, p2, p2s, s   []byte
+	rOrder               []string // keys of r, in emission order
+	propOrder            []string
+	ps                   []byte
 }
 
 func vc42Uint(v uint64, form int) []byte {
